@@ -455,4 +455,17 @@ theorem wfDumpItems_get {xs : List Val} : ∀ {k : Nat} {c : Val},
       rw [← h]; exact hw.1
     | succ k => exact ih hw.2 (by simpa using h)
 
+theorem wfDump_of_at {v w : Val} {q : List Nat} {ns : List Str} (h : At v q ns w) :
+    wfDump v = true → wfDump w = true := by
+  induction h with
+  | here v => exact id
+  | field hk _ ih =>
+    intro hv
+    simp only [wfDump, Bool.and_eq_true] at hv
+    exact ih (wfDumpFields_get hv.2 hk)
+  | item hk _ ih =>
+    intro hv
+    simp only [wfDump] at hv
+    exact ih (wfDumpItems_get hv hk)
+
 end Paroxy.Flat
